@@ -1,6 +1,5 @@
--- Root of the `McpModel` library: imports every engine so `lake build` checks all theorems.
+-- Root of the `McpModel` library: imports every engine's theorems so `lake build` checks them all.
+-- (Driver modules define `main` and are built as lean_exe targets; they are not imported here.)
 import McpModel.Base.Proto
 import McpModel.EventStore.Props
-import McpModel.EventStore.Driver
 import McpModel.Conn.Props
-import McpModel.Conn.Driver
